@@ -14,6 +14,9 @@ import pyexec
 import tlc
 
 
+FACTS = {}      # module id -> facts of PyCall!Facts (filled by plans_for)
+
+
 def plans_for(batch, timeout=1800):
     fd, path = tempfile.mkstemp(prefix="pycall_", suffix=".json")
     try:
@@ -25,6 +28,7 @@ def plans_for(batch, timeout=1800):
     plans = {t[1]: json.loads(t[2]) for t in r.by_tag("PLAN")}
     if len(plans) != len(batch):
         raise RuntimeError("PyCallPlan: %d plans for %d modules" % (len(plans), len(batch)))
+    FACTS.update({t[1]: json.loads(t[2]) for t in r.by_tag("FACTS")})
     return plans, r
 
 
